@@ -16,5 +16,6 @@ id: /[a-z]+/
 
 %input File;
 
-File -> File : Decl+ ;
-Decl -> Decl : name=id ';' ;
+File -> File : decls+=Decl+ ;
+Decl -> Decl : name=Name ';' ;
+Name -> Name : id ;
